@@ -326,10 +326,25 @@ def install_ns(mon):
             V("live-set-duplicate-point",
               f"it={self.iteration}: the new point equals live point "
               f"{int(np.argmax(same))} in every parameter")
+        # ... nor of any point accepted earlier in the run (live or already
+        # discarded, in this process or before a resume): a pool point is
+        # handed out once
+        if st.get("seen") is None:
+            seen = {r.tobytes() for r in param_view(bl)}
+            if len(self.nested_samples) > 1:
+                seen.update(r.tobytes() for r in param_view(
+                    np.array(self.nested_samples[:-1])))
+            st["seen"] = seen
+        nb = pv[pos].tobytes()
+        if nb in st["seen"] and not same.any():
+            V("new-point-is-a-copy-of-an-earlier-point",
+              f"it={self.iteration}: the new point equals, in every "
+              f"parameter, a point that was accepted earlier in the run")
+        st["seen"].add(nb)
         if not np.isfinite(new["logP"][0]):
             V("new-point-logP-not-finite", f"it={self.iteration}: "
               f"{new['logP'][0]!r}")
-        if not bool(model.in_bounds(new)[0]):
+        if not bool(model.ref_in_bounds(new)[0]):
             V("new-point-out-of-bounds", f"it={self.iteration}")
         if not new["logL"][0] > removed["logL"]:
             V("new-point-not-strictly-above",
@@ -368,7 +383,7 @@ def install_ns(mon):
         if not np.all(np.isfinite(live["logP"])) or not np.all(
                 np.isfinite(live["logL"])):
             V("initial-live-set-not-finite", "")
-        if not np.all(model.in_bounds(live)):
+        if not np.all(model.ref_in_bounds(live)):
             V("initial-live-set-out-of-bounds", "")
         if not np.all(live["it"] == 0):
             V("initial-live-set-it", "it != 0")
@@ -1072,6 +1087,11 @@ def install_ins_stop(mon):
         vals = {k: float(getattr(self, k)) for k in
                 self.stopping_criterion_aliases}
         st["all"].append(vals)
+        # kept across the processes of a history: the values the criteria
+        # had once `it + 1` iterations were complete
+        mon.shadow({"t": "ins_crit", "after": it + 1,
+                    "vals": {k: (v if np.isfinite(v) else repr(v))
+                             for k, v in vals.items()}})
         crit = [float(c) for c in result]
         if crit != [vals[k] for k in self.stopping_criterion]:
             V("criterion-list!=configured-criteria", f"it={it}")
@@ -1084,11 +1104,20 @@ def install_ins_stop(mon):
     def before_loop(self):
         st["start_iteration"] = int(self.iteration)
         st["was_finalised"] = bool(self.finalised)
-        try:
-            st["start_vals"] = {k: float(getattr(self, k)) for k in
-                                self.stopping_criterion_aliases}
-        except Exception:  # attribute missing before initialisation
-            st["start_vals"] = None
+        # values of the criteria at the iteration this process starts from:
+        # as recorded by the process that computed them (a restored state
+        # need not hold them all), else as found on the sampler
+        sv = None
+        for r in mon.load_shadow():
+            if r.get("t") == "ins_crit" and r["after"] == int(self.iteration):
+                sv = {k: float(v) for k, v in r["vals"].items()}
+        if sv is None:
+            try:
+                sv = {k: float(getattr(self, k)) for k in
+                      self.stopping_criterion_aliases}
+            except Exception:  # attribute missing before initialisation
+                sv = None
+        st["start_vals"] = sv
 
     def after_loop(self, _t, _r):
         V = mon.violation
@@ -1458,6 +1487,32 @@ def install_ckpt(mon):
 
     wrap(FlowModel, "save_weights", before_save, None)
 
+    # The weights file a training leaves behind holds the flow the run
+    # continues with (a resumed process loads the file, the running process
+    # uses the flow in memory).
+    def before_train(self, *a, **k):
+        return len(saved_weight_hashes())
+
+    def after_train(self, n_before, _):
+        import hashlib
+
+        saved = saved_weight_hashes()
+        if len(saved) <= n_before or getattr(self, "model", None) is None:
+            return
+        hsh = hashlib.sha1()
+        for k, v in sorted(self.model.state_dict().items()):
+            hsh.update(k.encode())
+            hsh.update(v.detach().cpu().numpy().tobytes())
+        mon.count("ckpt.trained_weights_checks")
+        if hsh.hexdigest()[:16] != saved[-1]:
+            mon.violation(
+                "training:weights-file!=flow-in-memory",
+                f"{type(self).__name__}.train: the state saved to the "
+                "weights file differs from the flow's state when train() "
+                "returned")
+
+    wrap(FlowModel, "train", before_train, after_train)
+
     def saved_weight_hashes():
         out = []
         if os.path.exists(wpath):
@@ -1729,6 +1784,20 @@ def install_kill_event(mon, spec):
     wrap(FlowProposal, "populate", before_populate, None)
     wrap(FlowProposal, "train", before_train, None)
     wrap(ImportanceFlowProposal, "draw", before_ins_draw, None)
+    if ev == "iteration":
+        # the process dies between two iterations of the standard sampler
+        # (any instant that is not a likelihood call: the pool is typically
+        # partly consumed)
+        from nessai.samplers.nestedsampler import NestedSampler
+
+        def before_consume(self, *a, **kw):
+            if self.iteration >= k and not st.get("fired"):
+                st["fired"] = True
+                mon.flags["kill_event_armed"] = True
+                mon.flush()
+                os._exit(9)
+
+        wrap(NestedSampler, "consume_sample", before_consume, None)
     if ev == "finalise":
         from nessai.samplers.nestedsampler import NestedSampler
         from nessai.samplers.importancesampler import ImportanceNestedSampler
@@ -1754,9 +1823,9 @@ def install_pool(mon):
         mon.count("pool.rows", n)
         if n == 0:
             return
-        if not np.all(model.in_bounds(samples)):
+        if not np.all(model.ref_in_bounds(samples)):
             V(f"pool-point-out-of-bounds:{name}",
-              f"{int((~model.in_bounds(samples)).sum())} of {n}")
+              f"{int((~model.ref_in_bounds(samples)).sum())} of {n}")
         with model.quiet():
             lp = np.asarray(model.log_prior(samples), dtype=float)
             ll = np.asarray(model._log_l(samples), dtype=float)
@@ -1920,7 +1989,7 @@ def _post_support(mon, fs, job):
     bad_b = bad_p = 0
     for x in log:
         n += x.size
-        inb = model.in_bounds(x)
+        inb = model.ref_in_bounds(x)
         bad_b += int((~inb).sum())
         with model.quiet():
             lp = np.asarray(model.log_prior(x), dtype=float)
